@@ -214,8 +214,8 @@ func ruleHandleCallsAreOneCriticalSection(rule string) func(*Ctx) {
 
 // ruleCapacityNeverDecides: the in-memory write cache grows by appending freshly zeroed bytes. Spare capacity behind the
 // content is not zero once the content has been cut (Truncate to a smaller size, O_TRUNC): re-slicing into it brings the old
-// bytes back where a file has zeros. In the buffer types of pkg/cache the capacity of the content never decides a branch and
-// never bounds a slice expression.
+// bytes back where a file has zeros. In the buffer types of pkg/cache the capacity of the content never bounds a slice
+// expression and never decides whether the content is re-sliced.
 func ruleCapacityNeverDecides(rule string) func(*Ctx) {
 	return func(c *Ctx) {
 		c.floor(rule, 4, "methods of the buffer types of pkg/cache")
@@ -241,30 +241,29 @@ func ruleCapacityNeverDecides(rule string) func(*Ctx) {
 				})
 				return found
 			}
+			// (a) a slice bound computed from the capacity; (b) a re-slice of a field onto itself (`b.data = b.data[:n]`) that
+			// is control-dependent - through an enclosing branch or an early return in front of it - on a test of the capacity.
+			// A capacity test that only decides about allocating a larger array (make + copy) is not reported.
 			ast.Inspect(f.Body(), func(m ast.Node) bool {
 				switch x := m.(type) {
-				case *ast.IfStmt:
-					if isCapOfField(x.Cond) {
-						bad = x.Cond.Pos()
-					}
-				case *ast.SwitchStmt:
-					if x.Tag != nil && isCapOfField(x.Tag) {
-						bad = x.Tag.Pos()
-					}
-				case *ast.CaseClause:
-					for _, e := range x.List {
-						if isCapOfField(e) {
-							bad = e.Pos()
-						}
-					}
-				case *ast.ForStmt:
-					if x.Cond != nil && isCapOfField(x.Cond) {
-						bad = x.Cond.Pos()
-					}
 				case *ast.SliceExpr:
 					for _, e := range []ast.Expr{x.Low, x.High, x.Max} {
 						if e != nil && isCapOfField(e) {
 							bad = e.Pos()
+						}
+					}
+				case *ast.AssignStmt:
+					if len(x.Lhs) != 1 || len(x.Rhs) != 1 {
+						return true
+					}
+					lf := selField(info, x.Lhs[0])
+					se, ok := ast.Unparen(x.Rhs[0]).(*ast.SliceExpr)
+					if lf == nil || !ok || selField(info, se.X) != lf {
+						return true
+					}
+					for _, cl := range enclosingCondsFlow(info, f.Body(), x) {
+						if isCapOfField(cl.e) {
+							bad = x.Pos()
 						}
 					}
 				}
@@ -274,7 +273,7 @@ func ruleCapacityNeverDecides(rule string) func(*Ctx) {
 			if bad != token.NoPos {
 				at = bad
 			}
-			c.verdictIf(bad == token.NoPos, rule, f, "capacity", at, "no branch and no slice bound depends on the capacity of the content",
+			c.verdictIf(bad == token.NoPos, rule, f, "capacity", at, "no re-slice and no slice bound depends on the capacity of the content",
 				f.Name+" decides from the capacity of the cached content: growing into spare capacity instead of appending zeroed bytes brings back what was there before the content was cut (write, Truncate to a smaller size, Truncate to a larger one: the old bytes instead of zeros)")
 		}
 	}
